@@ -721,6 +721,18 @@ func (p *Program) expandContract(c *Contract) []*Contract {
 	return out
 }
 
+// mentionsCallLog: does a clause talk about the verified function's own call log (ncalls/callarg/callres)?
+func mentionsCallLog(x ast.Expr) bool {
+	found := false
+	ast.Inspect(x, func(n ast.Node) bool {
+		if id, ok := n.(*ast.Ident); ok && (id.Name == "ncalls" || id.Name == "callarg" || id.Name == "callres") {
+			found = true
+		}
+		return !found
+	})
+	return found
+}
+
 // applyContract: assert requires, frame-check and havoc assigns, assume ensures.
 func (ex *Exec) applyContract(st *State, c *ssa.Call, con0 *Contract, bindings []ssa.Value, args []Term, tag string, fval ssa.Value) {
 	cons := ex.prog.expandContract(con0)
@@ -962,6 +974,9 @@ func (ex *Exec) applyContract(st *State, c *ssa.Call, con0 *Contract, bindings [
 			if con0.Except[con.Target][cl.Label] && cl.Label != "" {
 				continue
 			}
+			if mentionsCallLog(cl.Expr) {
+				continue // a statement about the callee's own call log says nothing the caller can use
+			}
 			st.sc.comment("callee ensures %s", cl.Text)
 			st.sc.assert(e.eval(cl.Expr))
 		}
@@ -987,6 +1002,7 @@ func (ex *Exec) applyContract(st *State, c *ssa.Call, con0 *Contract, bindings [
 			st.tuples[c] = results
 		}
 		cc := c.Common()
+		st.lastCall = &CallRec{Args: args, Results: results, Target: con0.Target}
 		_, isFn := cc.Value.(*ssa.Function)
 		_, isClo := cc.Value.(*ssa.MakeClosure)
 		logs := []string{"parsley.Parser.Parse"}
